@@ -286,6 +286,24 @@ CLAIMED = {
             'Module-level / default-argument caches are decided under C33 (D-R3).  Trusts Engine A '
             'summaries for "leaves the precision changed".',
             'DESIGN.md section 4 (C38)'),
+    'C29': ('R-rootfinding',
+            'static analysis: dominance/shape rule for the verification gate of findroot; abstract '
+            'interpretation of one loop iteration of every bracketing solver over the finite sign domain '
+            '(path enumeration with forks on each new function value, helpers inlined, refinement on '
+            'guards) checking the bracket invariant; structural rules on polyroots (size of the root '
+            'list, convergence gate)',
+            'Clauses: (1) every computed root findroot returns was compared, in the raising direction and '
+            'without additional conditions, with the caller\'s tolerance itself as |f(x)|^2 at exactly the '
+            'returned value (verify on by default); (2) for Bisection, Illinois (each of the three scaling '
+            'rules), Ridder: from every state with sign f(a) = -sign f(b), every path through one iteration '
+            'that returns to the loop head re-establishes the sign change and keeps each stored function '
+            'value of the same sign as f at its point - the sign abstraction is exact for these decisions '
+            'because the solvers use the values only through signs there; (3) polyroots returns exactly '
+            'deg values and only past its convergence gate.  Convergence, multiplicities, accuracy and the '
+            'ordering of polyroots\' output are numerical and not decided.',
+            'Trusts the sign-arithmetic lemmas of sa/sign_abs.py; assumes f deterministic and tol > 0.  '
+            'Seeded change C29-1 (sort key of polyroots sensitive to rounding noise) is not detected.',
+            'DESIGN.md section 4 (C29)'),
 }
 
 NA_REASONS = {
